@@ -331,3 +331,262 @@ func ruleBomOnlyFirst(c *Ctx, u *Universe, rule string) {
 	R.min(rule, 1)
 	R.count("bom_comparisons", n)
 }
+
+// keyOrderOwner: v is an element of a dictionary's key-order list; returns the dictionary object it belongs to
+func keyOrderOwner(u *Universe, v ssa.Value) ssa.Value {
+	un, ok := v.(*ssa.UnOp)
+	if !ok || un.Op != token.MUL {
+		return nil
+	}
+	ia, ok := un.X.(*ssa.IndexAddr)
+	if !ok {
+		return nil
+	}
+	src := ia.X
+	for i := 0; i < 6; i++ {
+		switch x := src.(type) {
+		case *ssa.Slice:
+			src = x.X
+			continue
+		case *ssa.Call:
+			if callee := x.Call.StaticCallee(); callee != nil && len(x.Call.Args) == 1 && namedTypeIs(x.Call.Args[0].Type(), "pkg/value", "HashMap") {
+				if _, isSlice := x.Type().Underlying().(*types.Slice); isSlice {
+					if b, isStr := x.Type().Underlying().(*types.Slice).Elem().Underlying().(*types.Basic); isStr && b.Kind() == types.String {
+						return x.Call.Args[0]
+					}
+				}
+			}
+			return nil
+		case *ssa.UnOp:
+			if fa, ok := x.X.(*ssa.FieldAddr); ok && fieldAddrName(fa) == "HashMap.keyOrder" {
+				return fa.X
+			}
+			return nil
+		}
+		break
+	}
+	return nil
+}
+
+// ruleDictEqByContent (….eqcontent): no comparison sets the key at some position of one dictionary's order list against
+// the key at a position of ANOTHER dictionary's order list: equality, 包含 and 寻找 of dictionaries are functions of the
+// contents only (a parsed / rebuilt dictionary with the same entries in another order is the same dictionary).
+func ruleDictEqByContent(c *Ctx, u *Universe, rule string) {
+	R := c.R
+	n, bad := 0, 0
+	for _, rel := range []string{"pkg/exec", "pkg/value", "pkg/common", "stdlib/json"} {
+		for _, f := range u.srcFuncs(rel) {
+			for _, in := range instrsOf(f) {
+				bo, ok := in.(*ssa.BinOp)
+				if !ok || (bo.Op != token.EQL && bo.Op != token.NEQ) {
+					continue
+				}
+				a, b := keyOrderOwner(u, bo.X), keyOrderOwner(u, bo.Y)
+				if a != nil || b != nil {
+					n++
+				}
+				if a != nil && b != nil && a != b {
+					bad++
+					R.viol(rule, u.fname(f)+":compares key positions of two dictionaries", u.pos(in.Pos()), "the i-th key of one dictionary is compared with the i-th key of another: two dictionaries with the same entries in a different insertion order (e.g. one rebuilt by 解析JSON) are no longer equal")
+				}
+			}
+		}
+	}
+	if bad == 0 {
+		R.hold(rule, "dictionary-equality-ignores-order", "", "no comparison between key positions of two different dictionaries")
+	}
+	R.count("keyorder_element_comparisons", n)
+}
+
+// ruleExternalRefsOwner (C15.refsowner): the home-module marks of imported names (Scope.externalRefs: slot -> module) are
+// written only by the listed owners (the constructor and DeclareExternalValue); any other writer can erase or forge the
+// mark of a live imported name, which then runs in the importer's module instead of its own.
+func ruleExternalRefsOwner(c *Ctx, u *Universe, rule string) {
+	R := c.R
+	var owners map[string]map[string]string
+	if !loadTable(c, "owners.json", &owners) {
+		return
+	}
+	allowed := owners["Scope.externalRefs"]
+	w := writersOf(u, corePkgs, map[string]bool{"Scope.externalRefs": true})["Scope.externalRefs"]
+	var fns []string
+	for fn := range w {
+		fns = append(fns, fn)
+	}
+	sortStrings(fns)
+	helpers := helpersOfAllowed(u, corePkgs, func(name string) bool { _, ok := allowed[name]; return ok })
+	for _, fn := range fns {
+		_, ok := allowed[fn]
+		if !ok && helpers[fn] {
+			ok = true
+		}
+		pos := ""
+		if len(w[fn]) > 0 {
+			pos = u.pos(w[fn][0].Pos())
+		}
+		R.check(ok, rule, "Scope.externalRefs written by "+fn, pos, "listed owner: "+allowed[fn], "a function outside the owner table writes the home-module marks of imported names: the mark of a live imported name can be erased or forged, and the imported method then runs in the importer's module (its own imports and siblings no longer resolve)")
+	}
+	R.min(rule, 2)
+}
+
+func sortStrings(s []string) {
+	for i := 1; i < len(s); i++ {
+		for j := i; j > 0 && s[j] < s[j-1]; j-- {
+			s[j], s[j-1] = s[j-1], s[j]
+		}
+	}
+}
+
+// ruleInitialPool (C20.initial): the master starts workers on its own account only in the counted loop i < InitProcs;
+// every other start belongs to the bookkeeping goroutine and goes through the reservation counter.
+func ruleInitialPool(c *Ctx, su *Universe, rule string) {
+	R := c.R
+	f := su.ssaFunc("pkg/server", "ZnPMServer.StartMaster")
+	if f == nil {
+		R.lost(rule, "pkg/server.ZnPMServer.StartMaster")
+		return
+	}
+	fns := append([]*ssa.Function{f}, f.AnonFuncs...)
+	n := 0
+	for _, g := range fns {
+		for _, cs := range su.callsNamed(g, "pkg/server.ZnPMServer.spawnProcess") {
+			n++
+			ok := false
+			blk := cs.Block()
+			if loopBlock(blk) {
+				for _, b := range g.Blocks {
+					ifi, isIf := b.Instrs[len(b.Instrs)-1].(*ssa.If)
+					if !isIf || !b.Succs[0].Dominates(blk) || !loopBlock(b) {
+						continue
+					}
+					bo, isBo := ifi.Cond.(*ssa.BinOp)
+					if !isBo || bo.Op != token.LSS {
+						continue
+					}
+					if _, isPhi := bo.X.(*ssa.Phi); isPhi && valueFieldName(bo.Y) == "InitProcs" {
+						ok = true
+					}
+				}
+			}
+			R.check(ok, rule, "StartMaster:spawn#"+itoa(n), su.pos(cs.Pos()), "inside the counted loop i < InitProcs", "the master starts a worker outside the counted loop over InitProcs: the pool comes up with more workers than --init-procs (with --init-procs = --max-procs it stays above --max-procs for good)")
+		}
+	}
+	R.min(rule, 1)
+}
+
+func itoa(n int) string {
+	if n == 0 {
+		return "0"
+	}
+	s := ""
+	for n > 0 {
+		s = string(rune('0'+n%10)) + s
+		n /= 10
+	}
+	return s
+}
+
+// valueFieldName: the value is a read of a struct field (value or pointer form); returns the field's name
+func valueFieldName(v ssa.Value) string {
+	switch x := v.(type) {
+	case *ssa.Field:
+		if st, ok := x.X.Type().Underlying().(*types.Struct); ok {
+			return st.Field(x.Field).Name()
+		}
+	case *ssa.UnOp:
+		if fa, ok := x.X.(*ssa.FieldAddr); ok {
+			if pt, ok := fa.X.Type().Underlying().(*types.Pointer); ok {
+				if st, ok := pt.Elem().Underlying().(*types.Struct); ok {
+					return st.Field(fa.Field).Name()
+				}
+			}
+		}
+	}
+	return ""
+}
+
+// ruleLineIndents (C05.indents): the reviewed bounds of the line-text slices (Source[start+indent chars : end]) rest on
+// "a line's Indents is the indentation counted on that very line". Every store to LineInfo.Indents therefore stores
+// constant 0 or the count answered by setIndentType in the same function - never a value carried over from another line.
+func ruleLineIndents(c *Ctx, u *Universe, rule string) {
+	R := c.R
+	n := 0
+	for _, rel := range corePkgs {
+		for _, f := range u.srcFuncs(rel) {
+			for _, in := range instrsOf(f) {
+				st, ok := in.(*ssa.Store)
+				if !ok {
+					continue
+				}
+				fa, ok := st.Addr.(*ssa.FieldAddr)
+				if !ok || fieldAddrName(fa) != "LineInfo.Indents" {
+					continue
+				}
+				n++
+				bad := ""
+				for _, s := range allSources(st.Val) {
+					switch x := s.(type) {
+					case *ssa.Const:
+						if x.Value == nil || x.Int64() != 0 {
+							bad = "a non-zero constant"
+						}
+					case *ssa.Extract:
+						call, isCall := x.Tuple.(*ssa.Call)
+						if !isCall || x.Index != 0 || !strings.HasSuffix(u.callName(call), "Lexer.setIndentType") {
+							bad = "a value that is not the indentation counted on this line"
+						}
+					default:
+						bad = "a value that is not the indentation counted on this line"
+					}
+				}
+				R.check(bad == "", rule, u.fname(f)+":stores LineInfo.Indents", u.pos(in.Pos()), "0 or the count answered by setIndentType here",
+					"a line's indent level is set to "+bad+": the line-text slice Source[start + indent characters : end] can start beyond the end of a shorter line (slice bounds panic inside the lexer; no tree and no positioned syntax error)")
+			}
+		}
+	}
+	R.min(rule, 3)
+	R.count("line_indent_stores", n)
+}
+
+// ruleNumberViaParseFloat (C04.numparse): the only text-to-number conversion on the literal path is strconv.ParseFloat;
+// integer parsers (base prefixes, octal leading zeros, range errors) do not implement the documented decimal form.
+func ruleNumberViaParseFloat(c *Ctx, u *Universe, rule string) {
+	R := c.R
+	n, bad := 0, 0
+	for _, f := range u.srcFuncs("pkg/exec") {
+		file := u.pos(f.Pos())
+		if !strings.Contains(file, "id_match.go") {
+			continue
+		}
+		for _, in := range instrsOf(f) {
+			call, ok := in.(ssa.CallInstruction)
+			if !ok {
+				continue
+			}
+			callee := call.Common().StaticCallee()
+			if callee == nil || callee.Pkg == nil {
+				continue
+			}
+			p := callee.Pkg.Pkg.Path()
+			if p != "strconv" && p != "math/big" && p != "fmt" {
+				continue
+			}
+			n++
+			name := callee.Name()
+			if p == "strconv" && name == "ParseFloat" {
+				continue
+			}
+			if p == "fmt" && !strings.HasPrefix(name, "Sscan") {
+				continue
+			}
+			bad++
+			R.viol(rule, u.fname(f)+" -> "+p+"."+name, u.pos(in.Pos()), "a numeric literal is converted by "+p+"."+name+" instead of strconv.ParseFloat: literals of the documented decimal form (leading zeros, signs, large values) can denote another number")
+		}
+	}
+	if bad == 0 {
+		R.hold(rule, "literal-conversion", "", "numeric literals are converted by strconv.ParseFloat only")
+	}
+	if n == 0 {
+		R.viol(rule, "literal-conversion-inventory", "", "no conversion call found on the literal path (the rule would pass vacuously)")
+	}
+}
